@@ -2,6 +2,8 @@
 probes used by the conformance replay: dense matrix, purity, determinism."""
 import numpy as np
 
+from .. import core
+
 
 def _arr(shape, re, im, dtype=np.complex128):
     a = (np.array(re, dtype=np.float64) + 1j * np.array(im, dtype=np.float64)).astype(dtype)
@@ -143,6 +145,6 @@ def dense(A, check_i=True, dtype=np.complex128):
             xi = np.zeros(n, dtype=dtype)
             xi[j] = 1j
             yi = np.asarray(A(xi.reshape(ish))).ravel()
-            if not np.allclose(yi, 1j * M[:, j], atol=1e-9, rtol=1e-9):
+            if not core.allclose(yi, 1j * M[:, j], atol=1e-9, rtol=1e-9):
                 defects.append(("not_c_linear", "A(i*e_%d) != i*A(e_%d): real and imaginary parts mixed or dropped" % (j, j)))
     return M, defects
